@@ -118,7 +118,8 @@ PROGRAMS = [
     ("list_output", '??"', "", True, False, 3), ("wrapped_print", "?w,", "", True, False, 3), ("function_print", "λ1;,", "", True, False, 2), ("lazy_print", "?ɾ,", "", True, False, 2), ("lazy_print_twice", "?ɾ…,", "", True, False, 2), ("lazy_print_dup", "?ɾ:,,", "", True, False, 2), ("lazy_print_after_len", "?ɾ:L_,", "", True, False, 2), ("list_print_twice", "?w…,", "", True, False, 2),
     ("all_strings_flag", "?", "Ṡ", True, False, 3), ("array_flag", "?", "a", True, False, 3), ("show_code_flag", "?,", "c", True, False, 2), ("stack_flag", "??", "W", True, False, 2),
     ("error_eager", "`a`₀β", "", False, True, 1), ("error_lazy_output", "3ɾƛ`a`β;", "", False, True, 1), ("error_in_print", "3ɾƛ`a`β;,", "", False, True, 1),
-    ("vy_exec_elem", "?Ė", "", False, False, 1), ("uncompilable_template", "?¨…", "", False, True, 1), ("no_output_flag", "?", "O", False, False, 2), ("dup_eval_sum", "?:E+", "", False, False, 1),
+    ("vy_exec_elem", "?Ė", "", False, False, 1), ("uncompilable_template", "?¨…", "", False, True, 1), ("malformed_modifier_operand", "1 2 ₌+ ", "", False, True, 1), ("malformed_trailing_modifier", "?v ", "", False, True, 1),
+    ("malformed_call_with_parameters", "@f:1;", "", False, True, 1), ("malformed_lambda_arity", "λa|1;", "", False, True, 1), ("no_output_flag", "?", "O", False, False, 2), ("dup_eval_sum", "?:E+", "", False, False, 1),
 ]
 
 
